@@ -21,7 +21,9 @@ CONSTANTS
   Depth = %d
   MaxVotes = 4
   GenMode = "none"
+  Sample = 8
   UseDev = %s
+  Side = "%s"
 INVARIANT Safe
 INVARIANT HonestAccepted
 INVARIANT EntitledNoFail
@@ -35,8 +37,10 @@ CONSTANTS
   Depth = %d
   MaxVotes = 4
   GenMode = "all"
+  Sample = %d
   UseDev = TRUE
-CONSTRAINT Leaf
+  Side = "%s"
+INVARIANT Leaf
 CHECK_DEADLOCK FALSE
 """
 
@@ -78,33 +82,51 @@ def generate(ctx, fx, fxpath):
     nw = len(behs)
     ncfg = len(fx)
     allc = list(range(1, ncfg + 1))
-    # ---- M: exhaustive design-level run (quick: configuration 1 to depth 3, the others to depth 2; thorough: all to depth 3)
-    deep = [1] if quick else allc
-    m = ctx.tlc_must("HeaderVerify", M_CFG % (cs(allc), cs(deep), 3, "TRUE"), name="M_design", files=files, timeout=2400,
-                     coverage=not quick)
-    for v in m.printed:
-        if isinstance(v, dict) and v.get("kind") == "CEX":
-            behs.append(v["h"])
-            ctx.note("design-level counterexample exported for replay: %s" % json.dumps(v.get("fail")))
-    design_violation = m.violated
-    ctx.cov["exhaustive"] = m.ok
-    ctx.cov["design_violation"] = design_violation
-    if getattr(m, "zero_actions", None):
-        ctx.cov["coverage_zero_actions"] = m.zero_actions
+    plain = [c for c in allc if not fx[c - 1].get("certRound")]
+    certc = [c for c in allc if fx[c - 1].get("certRound")]
+    # ---- M: exhaustive design-level runs.  Run A: all forging steps -- quick: configuration 1 to depth 3, the others to depth 2;
+    # thorough: the plain configurations to depth 3, the certificate-round configurations to depth 2.  Run B: the certificate-round
+    # configurations to depth 3 with the forging steps on the certificate only.
+    runs = [("M_design", cs(allc), cs([1] if quick else plain), "all", not quick)]
     if not quick:
-        # the same model without the named deviations must find the known design-level counterexamples (they are replayed)
-        m0 = ctx.tlc_must("HeaderVerify", M_CFG % ("1", "", 3, "FALSE"), name="M_nodev", files=files, timeout=600, count=False)
-        for v in m0.printed:
+        runs.append(("M_certificate", cs(certc), cs(certc), "cert", False))
+    design_violation = None
+    exhaustive = True
+    for name, cfgs_, deep, side, cov in runs:
+        m = ctx.tlc_must("HeaderVerify", M_CFG % (cfgs_, deep, 3, "TRUE", side), name=name, files=files, timeout=2400, coverage=cov)
+        for v in m.printed:
             if isinstance(v, dict) and v.get("kind") == "CEX":
                 behs.append(v["h"])
-        ctx.cov["design_violation_without_named_deviations"] = m0.violated
+                ctx.note("design-level counterexample exported for replay: %s" % json.dumps(v.get("fail")))
+        design_violation = design_violation or m.violated
+        exhaustive = exhaustive and m.ok
+        if getattr(m, "zero_actions", None):
+            ctx.cov["coverage_zero_actions"] = m.zero_actions
+    ctx.cov["exhaustive"] = exhaustive
+    ctx.cov["design_violation"] = design_violation
+    if not quick:
+        # the same model without the named deviations must find the known design-level counterexamples (they are replayed)
+        for name, cfgs_, side in (("M_nodev", "1", "all"), ("M_nodev_certificate", cs(certc[:1]), "cert")):
+            m0 = ctx.tlc_must("HeaderVerify", M_CFG % (cfgs_, "", 3, "FALSE", side), name=name, files=files, timeout=600, count=False)
+            for v in m0.printed:
+                if isinstance(v, dict) and v.get("kind") == "CEX":
+                    behs.append(v["h"])
+            ctx.cov["design_violation_without_named_deviations"] = m0.violated
     ncex = len(behs) - nw
-    # ---- G1: every description within the forging depth (quick: depth 2; thorough: depth 3 for configurations 1 and N)
-    gdeep = [] if quick else [1, ncfg]
-    gcfg = G_CFG % (cs(allc), cs(allc), 2) if quick else G_CFG % (cs(allc), cs(gdeep), 3)
-    g = ctx.tlc_must("HeaderVerify", gcfg, name="G1", files=files, timeout=2400)
+    # ---- G1: every description within the forging depth (quick: depth 2; thorough: depth 3 for configurations 1 and natural-T, and
+    # depth 3 of the certificate-only forging steps for the certificate-round configurations)
+    gdeep = [] if quick else [1, plain[-1]]
+    # the bulk (tempting, rejected by the design layer, depth >= 2) is thinned out in TLC by a structural hash chosen by the seed
+    smp = ctx.seed % 8
+    gruns = [("G1", G_CFG % (cs(allc), cs(allc), 2, smp, "all") if quick else G_CFG % (cs(allc), cs(gdeep), 3, smp, "all"))]
+    if not quick:
+        gruns.append(("G1_certificate", G_CFG % (cs(certc), cs(certc), 3, smp, "cert")))
+    printed = []
+    for name, gcfg in gruns:
+        g = ctx.tlc_must("HeaderVerify", gcfg, name=name, files=files, timeout=2400)
+        printed += g.printed
     rows = {}
-    for v in g.printed:
+    for v in printed:
         if isinstance(v, dict) and v.get("kind") == "B":
             k = key_of(v["h"])
             if k not in rows or rows[k]["h"]["d"] > v["h"]["d"]:
@@ -118,7 +140,7 @@ def generate(ctx, fx, fxpath):
     def cls(r):
         if r["h"]["d"] <= 1:
             return 0
-        if r["ca"] and not r["en"]:
+        if (r["ca"] and not r["en"]) or (r.get("cac") and not r.get("enac")):
             return 1
         if r["tp"] and not r["ca"]:
             return 2
@@ -145,7 +167,7 @@ def generate(ctx, fx, fxpath):
         groups[k] = out
         if k == 2:
             ctx.cov["tempting_strata"] = len(names)
-    caps = {0: 10 ** 9, 1: 400, 2: 1000, 3: 200} if quick else {0: 10 ** 9, 1: 5000, 2: 9000, 3: 3000}
+    caps = {0: 10 ** 9, 1: 220, 2: 380, 3: 80} if quick else {0: 10 ** 9, 1: 5000, 2: 9000, 3: 3000}
     sel = []
     for k in sorted(groups):
         sel += groups[k][:caps[k]]
@@ -162,7 +184,21 @@ def generate(ctx, fx, fxpath):
     return behs, design_violation
 
 
+DEFAULTS = {"cf": "std", "cvotes": [], "cagg": "ok", "cfidx": 1}
+
+
+def normalise(ctx, behs, fxpath):
+    """Descriptions recorded before the certificate extension lack the certificate fields."""
+    fx = json.load(open(fxpath))
+    for b in behs:
+        for k, v in DEFAULTS.items():
+            b.setdefault(k, v)
+        b.setdefault("declC", fx[b["cfg"] - 1]["protoC"])
+    return behs
+
+
 def judge(ctx, behs, fxpath):
+    behs = normalise(ctx, behs, fxpath)
     bpath = ctx.path("behaviours.ndjson")
     vlib.write_ndjson(bpath, behs)
     trace = ctx.path("trace.ndjson")
@@ -172,6 +208,8 @@ def judge(ctx, behs, fxpath):
     ctx.cov["evaluations"] += len(ev)
     acc = [e for e in ev if e.get("accept")]
     ctx.cov["real_accepts"] = ctx.cov.get("real_accepts", 0) + len(acc)
+    ctx.cov["ac_path_verdicts"] = ctx.cov.get("ac_path_verdicts", 0) + sum(1 for e in ev if "ac" in e)
+    ctx.cov["ac_path_accepts"] = ctx.cov.get("ac_path_accepts", 0) + sum(1 for e in ev if e.get("ac"))
     ctx.cov["real_panics"] = ctx.cov.get("real_panics", 0) + sum(1 for e in ev if "panic" in e or "hdrPanic" in e or "sidePanic" in e)
     ctx.cov["skipped_descriptions"] = ctx.cov.get("skipped_descriptions", 0) + sum(1 for e in ev if "skip" in e)
     # non-trivial: forged (depth >= 1) descriptions; distinct by the description without the depth tag
@@ -206,7 +244,7 @@ def selftest(ctx, trace, fxpath):
     bad = None
     for i, e in enumerate(ev):
         if e.get("ev") == "Verify" and not e.get("accept") and e["desc"].get("d", 0) >= 1 and len(e["desc"]["votes"]) == 1 \
-                and e["desc"]["declV"] == e["desc"]["declP"] and "panic" not in e:
+                and e["desc"]["declV"] == e["desc"]["declP"] and "panic" not in e and "ac" not in e:
             bad = i
             break
     if bad is None:
@@ -243,7 +281,9 @@ def run(ctx):
         "seat counts used by the property layer are the REAL sortition results recorded by the driver (exactness of sortition is C04)",
         "quorum = floor(0.685 T) in exact arithmetic (DESIGN section 9); thresholds of the alphabet are < 3400",
         "VRF/BLS/ECDSA hardness is trusted; BLS rogue-key registration (no proof of possession) is outside the model",
-        "certificate rounds (CertificateQuorum) are not reachable in this fixture: round 1 is not a multiple of ACoCHTFrequency",
+        "certificate rounds: two configurations at round 3 * ACoCHTFrequency on the stub chain (stake look-back set and certificate look-back "
+        "set differ in stakes, status and list order); the CertValThreshold consulted is the one DECLARED by the certificate look-back header",
+        "VerifyAcHeader (light-client path) is observed at certificate rounds and judged by the certificate clause only (AcCertificateQuorum)",
         "a proposer with zero seats or of offline/house kind is documented, not alarmed on (the statement only asks that the credential verifies)",
     ]
     fx, fxpath = fixtures(ctx)
